@@ -528,6 +528,72 @@ func cleanCutoffScenario() func() func() []string {
 	}
 }
 
+// announcerSetsScenario (sequential): several undelivered transactions are outstanding at once,
+// each with its own later announcers; after the request timeout every peer is polled and must be
+// offered exactly the transactions it announced itself and was not yet asked for - the announcer
+// sets of different transactions are independent of each other.
+func announcerSetsScenario(nTx, extra int) func() func() []string {
+	return func() func() []string {
+		txm := bitcoin_reader.NewTxManager(txTimeout)
+		first := uuid.New()
+		var txs []*wire.MsgTx
+		for i := 0; i < nTx; i++ {
+			txs = append(txs, mkTx(3000+i))
+		}
+		// announced[peer] = transactions it announced after the first announcer was asked
+		type later struct {
+			id uuid.UUID
+			tx []int
+		}
+		var peers []*later
+		for i, tx := range txs {
+			txm.AddTxID(bg, first, *tx.TxHash())
+			for e := 0; e < extra; e++ {
+				p := &later{id: uuid.New(), tx: []int{i}}
+				peers = append(peers, p)
+			}
+		}
+		// interleave the later announcements over the transactions (tx0's first, tx1's first, ...)
+		var answers []bool
+		for e := 0; e < extra; e++ {
+			for i := range txs {
+				p := peers[i*extra+e]
+				ok, _ := txm.AddTxID(bg, p.id, *txs[i].TxHash())
+				answers = append(answers, ok)
+			}
+		}
+		vsched.Advance(txTimeout + time.Second)
+		stranger := uuid.New()
+		strangerGot, _ := txm.GetTxRequests(bg, stranger, 100)
+		firstGot, _ := txm.GetTxRequests(bg, first, 100)
+		// only the first later announcer of each transaction is polled: once it has been asked the
+		// transaction is outstanding again
+		got := map[int][]bitcoin.Hash32{}
+		for i := range txs {
+			l, _ := txm.GetTxRequests(bg, peers[i*extra].id, 100)
+			got[i] = l
+		}
+		return func() []string {
+			var problems []string
+			for _, a := range answers {
+				if a {
+					problems = append(problems, "announce: a later announcer inside the request window was told to request")
+				}
+			}
+			if len(strangerGot) != 0 || len(firstGot) != 0 {
+				problems = append(problems, fmt.Sprintf("poll: a peer that announced nothing new was offered %d / %d transactions", len(strangerGot), len(firstGot)))
+			}
+			for i := range txs {
+				if len(got[i]) != 1 || got[i][0] != *txs[i].TxHash() {
+					problems = append(problems, fmt.Sprintf("announcer-sets: the peer that announced transaction %d (and only that) was offered %d transactions after the timeout, want exactly that one", i, len(got[i])))
+				}
+			}
+			label(fmt.Sprintf("txs=%d extra=%d ok=%t", nTx, extra, len(problems) == 0))
+			return problems
+		}
+	}
+}
+
 func c06Scenarios(thorough bool) []*scenario {
 	var r []*scenario
 	scripts := [][]string{{"A0"}, {"D0"}, {"A0", "D0"}, {"D0", "A0"}, {"A0", "A0"}, {"D0", "D0"}}
@@ -574,6 +640,11 @@ func c06Scenarios(thorough bool) []*scenario {
 	// Clean running next to the handlers: ~770 scheduling points per Clean (256 buckets), bound 1
 	r = append(r, &scenario{name: "txmanager/clean-while-announcing", bounds: []int{0, 1}, body: cleanScenario(false), steps: 50000})
 	r = append(r, &scenario{name: "txmanager/clean-while-delivering", bounds: []int{0, 1}, body: cleanScenario(true), steps: 50000})
+	for _, n := range []int{2, 3} {
+		for _, e := range []int{1, 2, 5} {
+			r = append(r, &scenario{name: fmt.Sprintf("txmanager/announcer-sets/%d-txs-%d-later-announcers", n, e), bounds: []int{0}, body: announcerSetsScenario(n, e), steps: 50000})
+		}
+	}
 	r = append(r, &scenario{name: "txmanager/clean-cut-off-between-request-and-delivery", bounds: []int{0}, body: cleanCutoffScenario(), steps: 50000})
 	if thorough {
 		add(txScript{peers: [][]string{{"A0", "A0"}, {"A0"}}, poll: []int{1, 1}, adv: true})
